@@ -533,6 +533,13 @@ impl<P: ParallelVariant> Rans64Decoder<P> {
         if output_length == 0 {
             return Ok(Vec::new());
         }
+        // With a single-symbol table every symbol costs zero bits, so the input places no bound
+        // on the output: the requested length itself has to be limited.
+        if output_length > crate::entropy::MAX_DECOMPRESSED_SIZE {
+            return Err(ZiporaError::invalid_data(
+                "Requested output length exceeds the decompressed size limit",
+            ));
+        }
 
         if P::N == 1 {
             self.decode_single(encoded_data, output_length)
